@@ -1,6 +1,7 @@
 import LabtechModel.Proofs.Submit
 import LabtechModel.Proofs.InvMain
 import LabtechModel.Proofs.Inv2Main
+import LabtechModel.Proofs.Inv2FailFast
 /-!
 # C10 — One task's failure never disturbs unrelated tasks
 
@@ -374,5 +375,235 @@ example (be : Backend) :
         (fun t => (refEvalF { invExCfg with backend := be } failP [(0, 5)] id t).map (fun v => (t, v)))) :=
   unrelated_tasks_return_reference _ failP [(0, 5)] 4 _ id failP_refHypF rfl invExP_fuel
     (invEx_limits be 2 (by decide)) (fair_replicate 5 chooseAll rfl) (by cases be <;> decide)
+
+/-! ## fail-fast (`continue_on_failure = False`), whole runs
+
+From `FFInv` of `Proofs/Inv2FailFast.lean`: the value invariant carried through the loop for an
+ARBITRARY configuration, with arbitrary raising / dying tasks and an arbitrary cache pre-state. No
+fairness, no `LimitsPos`, no bound on the schedule: the statements hold for every `sched`. -/
+
+/-- the fuel hypothesis of the theorems below is implied by `FuelOK` -/
+theorem fuelOK_pos_or_nil {p : Problem} {fuel : Nat} (hF : FuelOK p fuel) : 0 < fuel ∨ p.requested = [] := by
+  cases hreq : p.requested with
+  | nil => exact Or.inr rfl
+  | cons i is => exact Or.inl (Nat.lt_of_le_of_lt (Nat.zero_le _) (hF i (by rw [hreq]; exact List.mem_cons_self)))
+
+/-- a failed reference outcome means: no reference value -/
+theorem failed_refOutcome_none (cfg : Config) (p : Problem) (store : Store) (obj : Tid → Iid) (t : Tid)
+    (h : failed (refOutcome cfg p store obj t)) : refEvalF cfg p store obj t = none := by
+  cases hv : refEvalF cfg p store obj t with
+  | none => rfl
+  | some v =>
+    have := (refOutcome_ok_iff cfg p store obj t v).mpr hv
+    rw [this] at h
+    rcases h with h | h <;> cases h
+
+/-- (A) If `run_tasks` raises `LabError` for task `t`, then `continue_on_failure` was off and `t` is
+    the FIRST failure handed to the coordinator: the trace ENDS with the yield `(t, o)` (after the raise
+    nothing is submitted, started or yielded), `o` is a failure (`exc` or `died`) and is the reference
+    outcome of `t`, so `t` has no value by the plain sequential reference semantics (it raises, its
+    worker dies, or it lets a failed dependency's `TaskError` propagate); every yield before it belongs
+    to another task, is a success `ok v`, and `v` is that task's reference value. -/
+theorem labError_is_first_reference_failure (cfg : Config) (p : Problem) (store : Store) (fuel : Nat)
+    (sched : List Choice) (obj : Tid → Iid) (H : RefHypF p obj) (t : Tid)
+    (h : (run cfg p store fuel sched).status = .raised (.labError t)) :
+    cfg.contOnFail = false ∧
+    ∃ o pre, (run cfg p store fuel sched).trace = pre ++ [Ev.yield t o] ∧
+      Ev.yield t o ∈ (run cfg p store fuel sched).trace ∧
+      failed o ∧ o = refOutcome cfg p store obj t ∧ refEvalF cfg p store obj t = none ∧
+      ∀ t' o', Ev.yield t' o' ∈ pre →
+        t' ≠ t ∧ o' = refOutcome cfg p store obj t' ∧
+        ∃ v, o' = .ok v ∧ refEvalF cfg p store obj t' = some v := by
+  have hl := (run_raised_iff_loopHead cfg p store fuel sched _).mp h
+  obtain ⟨hcf, o, pre, htr, hfail, ho, hpre, hnot⟩ := loopHead_raised cfg p store fuel sched obj H t hl
+  refine ⟨hcf, o, pre, ?_, ?_, hfail, ho, ?_, ?_⟩
+  · rw [run_trace]; exact htr
+  · rw [run_trace, htr]; simp
+  · apply failed_refOutcome_none
+    rw [← ho]; exact hfail
+  · intro t' o' h'
+    obtain ⟨h1, v, hv⟩ := hpre t' o' h'
+    refine ⟨?_, h1, v, hv, ?_⟩
+    · intro heq; subst heq; exact hnot o' h'
+    · rw [← refOutcome_ok_iff, ← h1]; exact hv
+
+/-- (A, second part) `every_yield_is_refF` for EVERY configuration: every outcome handed to the
+    coordinator at any point of any run, fail-fast or not, is the reference outcome of its task -/
+theorem every_yield_is_refF_any_config (cfg : Config) (p : Problem) (store : Store) (fuel : Nat)
+    (sched : List Choice) (obj : Tid → Iid) (H : RefHypF p obj)
+    (t : Tid) (o : Outcome) (h : Ev.yield t o ∈ (run cfg p store fuel sched).trace) :
+    o = refOutcome cfg p store obj t ∧ ∀ v, o = .ok v ↔ refEvalF cfg p store obj t = some v := by
+  rw [run_trace] at h
+  have := loopHead_yOk cfg p store fuel sched obj H t o h
+  refine ⟨this, fun v => ?_⟩
+  rw [this]
+  exact refOutcome_ok_iff cfg p store obj t v
+
+/-- while a fail-fast coordinator has not raised, no failure has been handed to it -/
+theorem fail_fast_running_no_failure (cfg : Config) (p : Problem) (store : Store) (fuel : Nat)
+    (sched : List Choice) (obj : Tid → Iid) (H : RefHypF p obj) (hcf : cfg.contOnFail = false)
+    (hrun : (loopHead cfg p store fuel sched).status = .running)
+    (t : Tid) (o : Outcome) (h : Ev.yield t o ∈ (loopHead cfg p store fuel sched).trace) :
+    ∃ v, o = .ok v ∧ refEvalF cfg p store obj t = some v := by
+  obtain ⟨hr, ha⟩ := loopHead_running_val cfg p store fuel sched obj H hrun
+  rcases ha with ha | ha
+  · rw [hcf] at ha; cases ha
+  · obtain ⟨v, hv⟩ := ha t o h
+    refine ⟨v, hv, ?_⟩
+    rw [← refOutcome_ok_iff, ← hr.yOk t o h]; exact hv
+
+/-- (B) `run_tasks` never raises `KeyError` (any configuration; restated from the master invariant,
+    cf. `Props.C11.no_keyerror`) -/
+theorem fail_fast_never_keyerror (cfg : Config) (p : Problem) (store : Store) (fuel : Nat)
+    (sched : List Choice) : (run cfg p store fuel sched).status ≠ .raised .keyError := by
+  rcases run_status_cases cfg p store fuel sched with h | ⟨r, h⟩ | ⟨t, h⟩ <;> rw [h] <;> simp
+
+/-- (B) whenever `run_tasks` returns — any configuration, any schedule, no fairness — it returns
+    exactly the requested tasks that have a reference value, with that value, in request order, and
+    every planned task was handed to the coordinator (`0 < fuel ∨ requested = []` follows from
+    `FuelOK`, see `fuelOK_pos_or_nil`) -/
+theorem returned_is_reference (cfg : Config) (p : Problem) (store : Store) (fuel : Nat)
+    (sched : List Choice) (obj : Tid → Iid) (H : RefHypF p obj) (hfuel : 0 < fuel ∨ p.requested = [])
+    (r : List (Tid × Val)) (h : (run cfg p store fuel sched).status = .returned r) :
+    r = (dedup (reqTids p)).filterMap (fun t => (refEvalF cfg p store obj t).map (fun v => (t, v))) ∧
+    ∀ t ∈ (plan cfg p store fuel).pending, ∃ o, Ev.yield t o ∈ (run cfg p store fuel sched).trace := by
+  obtain ⟨_, hall, hr⟩ := run_returned_refF cfg p store fuel sched obj H hfuel r h
+  refine ⟨hr, fun t ht => ?_⟩
+  rw [run_trace, ← mem_yieldedOf]
+  exact (hall t).mp ht
+
+/-- (B) if a fail-fast `run_tasks` returns, then no failure was ever handed to the coordinator, in
+    fact no planned task fails at all by the reference semantics (`NoFailure`), and the result is the
+    reference result -/
+theorem fail_fast_returned_no_failure (cfg : Config) (p : Problem) (store : Store) (fuel : Nat)
+    (sched : List Choice) (obj : Tid → Iid) (H : RefHypF p obj) (hcf : cfg.contOnFail = false)
+    (hfuel : 0 < fuel ∨ p.requested = [])
+    (r : List (Tid × Val)) (h : (run cfg p store fuel sched).status = .returned r) :
+    (∀ t o, Ev.yield t o ∈ (run cfg p store fuel sched).trace →
+      ∃ v, o = .ok v ∧ refEvalF cfg p store obj t = some v) ∧
+    NoFailure cfg p store obj fuel ∧
+    r = (dedup (reqTids p)).filterMap (fun t => (refEvalF cfg p store obj t).map (fun v => (t, v))) := by
+  obtain ⟨hrun, hall, hr⟩ := run_returned_refF cfg p store fuel sched obj H hfuel r h
+  have hno : ∀ t o, Ev.yield t o ∈ (run cfg p store fuel sched).trace →
+      ∃ v, o = .ok v ∧ refEvalF cfg p store obj t = some v := by
+    intro t o ho
+    rw [run_trace] at ho
+    exact fail_fast_running_no_failure cfg p store fuel sched obj H hcf hrun t o ho
+  refine ⟨hno, ?_, hr⟩
+  intro t ht
+  obtain ⟨o, ho⟩ := (mem_yieldedOf _ _).mp ((hall t).mp ht)
+  rw [← run_trace] at ho
+  obtain ⟨v, _, hv⟩ := hno t o ho
+  rw [hv]; rfl
+
+/-- (B) the three ways a fail-fast run can end (or not yet have ended: `running` = the schedule ran
+    out), with what each means -/
+theorem fail_fast_status_cases (cfg : Config) (p : Problem) (store : Store) (fuel : Nat)
+    (sched : List Choice) (obj : Tid → Iid) (H : RefHypF p obj) (hcf : cfg.contOnFail = false)
+    (hfuel : 0 < fuel ∨ p.requested = []) :
+    ((run cfg p store fuel sched).status = .running ∧
+      ∀ t o, Ev.yield t o ∈ (run cfg p store fuel sched).trace →
+        ∃ v, o = .ok v ∧ refEvalF cfg p store obj t = some v) ∨
+    (∃ r, (run cfg p store fuel sched).status = .returned r ∧
+      (∀ t o, Ev.yield t o ∈ (run cfg p store fuel sched).trace →
+        ∃ v, o = .ok v ∧ refEvalF cfg p store obj t = some v) ∧
+      NoFailure cfg p store obj fuel ∧
+      r = (dedup (reqTids p)).filterMap (fun t => (refEvalF cfg p store obj t).map (fun v => (t, v)))) ∨
+    (∃ t, (run cfg p store fuel sched).status = .raised (.labError t) ∧
+      refEvalF cfg p store obj t = none ∧
+      ∃ o pre, (run cfg p store fuel sched).trace = pre ++ [Ev.yield t o] ∧ failed o ∧
+        ∀ t' o', Ev.yield t' o' ∈ pre → ∃ v, o' = .ok v ∧ refEvalF cfg p store obj t' = some v) := by
+  rcases run_status_cases cfg p store fuel sched with h | ⟨r, h⟩ | ⟨t, h⟩
+  · left
+    refine ⟨h, ?_⟩
+    have hfin : (run cfg p store fuel sched).status =
+        (finish (reqTids p) (loopHead cfg p store fuel sched)).status := rfl
+    have hrun : (loopHead cfg p store fuel sched).status = .running := by
+      rcases finish_status_cases (reqTids p) (loopHead cfg p store fuel sched) with h' | ⟨h', _⟩
+      · rw [← h', ← hfin]; exact h
+      · exact h'
+    intro t o ho
+    rw [run_trace] at ho
+    exact fail_fast_running_no_failure cfg p store fuel sched obj H hcf hrun t o ho
+  · right; left
+    exact ⟨r, h, fail_fast_returned_no_failure cfg p store fuel sched obj H hcf hfuel r h⟩
+  · right; right
+    obtain ⟨_, o, pre, htr, _, hfail, _, hnone, hpre⟩ :=
+      labError_is_first_reference_failure cfg p store fuel sched obj H t h
+    refine ⟨t, h, hnone, o, pre, htr, hfail, ?_⟩
+    intro t' o' h'
+    obtain ⟨_, _, v, hv⟩ := hpre t' o' h'
+    exact ⟨v, hv⟩
+
+/-- three independent tasks: 0 raises, the worker of 1 dies, 2 succeeds -/
+def ffP : Problem where
+  tidOf := fun i => i
+  children := fun _ => []
+  requested := [0, 1, 2]
+  ty := fun _ => 0
+  maxPar := fun _ => none
+  cacheable := fun _ => true
+  fails := fun t => t == 0
+  dies := fun t => t == 1
+  behave := fun t _ => some (t + 10)
+
+def ffCfg : Config := { backend := .fork, maxWorkers := 3, contOnFail := false, bust := false }
+
+theorem ffP_refHypF : RefHypF ffP id where
+  acyc := by intro i c h; simp [ffP] at h
+  inst := by intro i j _; rfl
+  objOK := by intro i; rfl
+
+/-- the yields of a trace, in order -/
+def yieldsOf (tr : List Ev) : List (Tid × Outcome) :=
+  tr.filterMap (fun e => match e with | .yield t o => some (t, o) | _ => none)
+
+/-- (C) non-vacuity, concrete: two failing tasks, the schedule decides which one is reported. All
+    three workers run at once; if worker 0's outcome becomes visible first the run raises
+    `LabError 0` (caused by the task's own exception), if worker 1's death does, `LabError 1`; if the
+    successful task 2 is delivered first and then both failures at once, its yield `ok 12` precedes
+    the failing yield of 0 (first in `future_to_task` order) and 1 is never handed over. In every case
+    the failing yield is the last event of the trace and is the task's reference outcome. -/
+example :
+    (run ffCfg ffP [] 3 [⟨fun i => i == 0⟩, chooseAll]).status = .raised (.labError 0) ∧
+    (run ffCfg ffP [] 3 [⟨fun i => i == 1⟩, chooseAll]).status = .raised (.labError 1) ∧
+    (run ffCfg ffP [] 3 [⟨fun i => i == 2⟩, chooseAll, chooseAll]).status = .raised (.labError 0) ∧
+    yieldsOf (run ffCfg ffP [] 3 [⟨fun i => i == 0⟩, chooseAll]).trace = [(0, .exc)] ∧
+    yieldsOf (run ffCfg ffP [] 3 [⟨fun i => i == 1⟩, chooseAll]).trace = [(1, .died)] ∧
+    yieldsOf (run ffCfg ffP [] 3 [⟨fun i => i == 2⟩, chooseAll, chooseAll]).trace = [(2, .ok 12), (0, .exc)] ∧
+    (run ffCfg ffP [] 3 [⟨fun i => i == 0⟩, chooseAll]).trace.getLast? = some (Ev.yield 0 .exc) ∧
+    (run ffCfg ffP [] 3 [⟨fun i => i == 1⟩, chooseAll]).trace.getLast? = some (Ev.yield 1 .died) ∧
+    (run ffCfg ffP [] 3 [⟨fun i => i == 2⟩, chooseAll, chooseAll]).trace.getLast? = some (Ev.yield 0 .exc) ∧
+    [0, 1, 2].map (refOutcome ffCfg ffP [] id) = [.exc, .died, .ok 12] ∧
+    [0, 1, 2].map (refEvalF ffCfg ffP [] id) = [none, none, some 12] ∧
+    -- with continue_on_failure the same schedules return the unrelated task's value
+    (run { ffCfg with contOnFail := true } ffP [] 3 [⟨fun i => i == 1⟩, chooseAll, chooseAll]).status
+      = .returned [(2, 12)] := by
+  decide
+
+/-- the hypotheses of `labError_is_first_reference_failure` / `fail_fast_status_cases` are satisfiable
+    together, and the conclusion for both reported tasks -/
+example :
+    (∃ pre, (run ffCfg ffP [] 3 [⟨fun i => i == 0⟩, chooseAll]).trace = pre ++ [Ev.yield 0 .exc]) ∧
+    (∃ pre, (run ffCfg ffP [] 3 [⟨fun i => i == 1⟩, chooseAll]).trace = pre ++ [Ev.yield 1 .died]) := by
+  constructor
+  · obtain ⟨_, o, pre, htr, _, _, ho, _⟩ :=
+      labError_is_first_reference_failure ffCfg ffP [] 3 [⟨fun i => i == 0⟩, chooseAll] id ffP_refHypF 0 (by decide)
+    have : refOutcome ffCfg ffP [] id 0 = .exc := by decide
+    rw [this] at ho; subst ho
+    exact ⟨pre, htr⟩
+  · obtain ⟨_, o, pre, htr, _, _, ho, _⟩ :=
+      labError_is_first_reference_failure ffCfg ffP [] 3 [⟨fun i => i == 1⟩, chooseAll] id ffP_refHypF 1 (by decide)
+    have : refOutcome ffCfg ffP [] id 1 = .died := by decide
+    rw [this] at ho; subst ho
+    exact ⟨pre, htr⟩
+
+/-- and of `fail_fast_returned_no_failure` (`ffP` with no raising and no dying task: the fail-fast run returns, so `NoFailure`) -/
+example :
+    let pr : Problem := { ffP with fails := fun _ => false, dies := fun _ => false }
+    NoFailure ffCfg pr [] id 3 :=
+  (fail_fast_returned_no_failure ffCfg _ [] 3 [chooseAll, chooseAll] id
+    ⟨by intro i c h; simp [ffP] at h, by intro i j _; rfl, by intro i; rfl⟩ rfl (Or.inl (by decide))
+    [(0, 10), (1, 11), (2, 12)] (by decide)).2.1
 
 end Lt.Props.C10
